@@ -409,7 +409,29 @@ def concrete_run(p):
     install()
     standins.PINNED[:] = [c[1] for c in p.get("choices", [])]
     sc = ScoringScheme([[float(x) for x in p["scheme"][0]], [float(x) for x in p["scheme"][1]]])
-    ds = Dataset.from_raw_list(shapes.from_json(p["rankings"]))
+    if "history" in p and "op" in p["history"]:
+        from corankco.element import Element
+        ds = Dataset.from_raw_list(shapes.from_json(p["history"]["first"]))
+        pins = list(standins.PINNED)
+        try:
+            a0, _ = make_config(p["config"], [])
+            if p["config"] in ("ExactPulp", "Exact(opt,nocplex)", "Exact(noopt,nocplex)", "ParCons(nocplex)", "ParCons(2,Borda,nocplex)"):
+                standins.uninstall_pulp()
+            standins.PINNED[:] = []
+            a0.compute_consensus_rankings(ds, sc, p["flag"])
+            ds.get_positions(), ds.get_bucket_ids(), ds.universe, ds.unified_rankings()
+        except Exception:  # noqa
+            pass
+        standins.PINNED[:] = pins
+        op = p["history"]["op"]
+        if op[0] == "empty":
+            ds.remove_empty_rankings()
+        else:
+            names0 = sorted({x for r in p["history"]["first"] for b in r for x in b}, key=str)
+            removed = [x for x in names0 if x not in {y for r in p["rankings"] for b in r for y in b}]
+            ds.remove_elements({Element(x) for x in removed})
+    else:
+        ds = Dataset.from_raw_list(shapes.from_json(p["rankings"]))
     log = []
     alg, cplex = make_config(p["config"], log)
     if p["config"] in ("ExactPulp", "Exact(opt,nocplex)", "Exact(noopt,nocplex)", "ParCons(nocplex)", "ParCons(2,Borda,nocplex)"):
@@ -528,18 +550,68 @@ FAMILIES = {
 }
 
 
+def apply_history(ds, lvs, names, hist):
+    """in-place edit of a real dataset; returns the level vectors the edited dataset must be equivalent to"""
+    from corankco.element import Element
+    n = len(names)
+    if hist[0] == "empty":
+        ds.remove_empty_rankings()
+        return tuple(r for r in lvs if any(v != -1 for v in r))
+    if hist[0] == "remove":
+        e = hist[1]
+        ds.remove_elements({Element(names[e])})
+        lv2 = tuple(tuple(-1 if i == e else v for i, v in enumerate(r)) for r in lvs)
+        return tuple(spec.levels_of(spec.buckets_of(r), n) for r in lv2 if any(v != -1 for v in r))
+    raise harness.HarnessError("unknown history " + str(hist))
+
+
 def run_item(args):
-    """args: (cfg, lvs, names, flag, check names[, scheme family]) -> list of payloads"""
+    """args: (cfg, lvs, names, flag, check names[, scheme family[, history]]) -> list of payloads.
+    history = ("empty",) or ("remove", e): the algorithm first aggregates the dataset (priming every cache), the dataset is then
+    edited in place, and the property is checked on a second aggregation of the SAME Dataset object by a new algorithm object."""
     cfg, lvs, names, flag, checks = args[:5]
     family = args[5] if len(args) > 5 else None
+    hist = args[6] if len(args) > 6 else None
     install()
     out = []
-    ds = shapes.build(lvs, names)
+    ds = shapes.build(lvs, names) if hist is None else None
     B, T = fork.scheme_vars()
     sc = fork.make_scheme(B, T)
     ex = fork.Explorer(fork.valid_scheme(B, T) + (FAMILIES[family](B, T) if family else []), max_paths=int(2e5))
     table = {"accepts": chk_accepts, "wellformed": chk_wellformed, "reported": chk_reported, "localopt": chk_localopt,
              "starts": chk_starts, "optimal": chk_optimal, "flag": chk_flag_truthful}
+
+    def path_hist(ctx):
+        d = shapes.build(lvs, names)
+        try:
+            alg0, _ = make_config(cfg, [])
+            alg0.compute_consensus_rankings(d, sc, flag)
+            d.get_positions(), d.get_bucket_ids(), d.universe, d.unified_rankings()
+        except harness.HarnessError:
+            raise
+        except harness.Inconclusive:
+            raise
+        except Exception:  # noqa
+            pass
+        ctx.pinned = []
+        lv2 = apply_history(d, lvs, names, hist)
+        o = observe(ctx, cfg, lv2, names, flag, B, T, sc, d)
+        o.history = {"first": shapes.raw_json(lvs, names), "op": list(hist)}
+        n0 = len(out)
+        chk_crash(o, out)
+        for c in checks:
+            if len(out) >= 3:
+                break
+            (table[c] if isinstance(c, str) else c)(o, out)
+        for pl in out[n0:]:
+            pl["history"] = o.history
+            pl["signature"] = dict(pl["signature"], history=hist[0])
+        return None
+
+    if hist is not None:
+        ex.explore(path_hist)
+        STATS.sample({"config": cfg, "history": [shapes.raw_json(lvs, names), "aggregate", list(hist), "aggregate again"], "scheme": "12 symbolic reals"}, cap=8)
+        return out
 
     def path(ctx):
         o = observe(ctx, cfg, lvs, names, flag, B, T, sc, ds)
@@ -664,6 +736,74 @@ def make_items(run, configs, checks, flags=(True, False), light=None, heavy=None
     run.bounds["sweep (per configuration: shapes n, m; datasets explored / all)"] = desc
     run.bounds["scheme"] = "12 symbolic reals under the validity constraints, on every path"
     return items
+
+
+def history_items(run, configs, checks, k, flags=(True,)):
+    """k (dataset, edit) histories per configuration: datasets with an empty ranking + remove_empty_rankings, and datasets with
+    >= 2 elements per ranking + removal of one element"""
+    import random
+    rnd = random.Random(run.seed + 17)
+    base = [d for d in dataset_pool(3, 2) if all(sum(1 for v in r if v != -1) >= 2 for r in d)]
+    items = []
+    for cfg in configs:
+        for i in range(k):
+            d = rnd.choice(base)
+            names = NAMINGS[3][i % 3]
+            if i % 2 == 0:
+                lvs, hist = d + ((-1, -1, -1),), ("empty",)
+            else:
+                lvs, hist = d, ("remove", rnd.randrange(3))
+            for fl in flags:
+                items.append((cfg, lvs, names, fl, checks, None, hist))
+    run.bounds["histories (aggregate, edit the dataset in place, aggregate again)"] = {"per configuration": k, "edits": ["remove_empty_rankings", "remove_elements({e})"]}
+    return items
+
+
+def validate_engine_f(run, k=24):
+    """translation validation of Engine F: for sampled (configuration, dataset, preset scheme) the fork-mode execution with the
+    12 penalties pinned to the preset must give the same consensus and score as a plain execution of the same code on floats
+    (no proxies, no object arrays).  Counts into traces_validated_against_impl."""
+    import random
+    from corankco.scoringscheme import ScoringScheme
+    rnd = random.Random(run.seed + 5)
+    install()
+    presets = [ScoringScheme.get_unifying_scoring_scheme(), ScoringScheme.get_induced_measure_scoring_scheme_p(0.5),
+               ScoringScheme([[0., 1., 0.5, 0.25, 1., 0.75], [0.5, 0.5, 0., 0.25, 0.25, 1.]])]
+    cfgs = ["Copeland", "Borda", "BioConsert", "ExactPulp", "ParCons", "PickAPerm", "ExactCplex(noopt)"]
+    pool = dataset_pool(3, 2)
+    for i in range(k):
+        cfg, lvs, sc0 = cfgs[i % len(cfgs)], rnd.choice(pool), presets[i % 3]
+        names = NAMINGS[3][i % 3]
+        ds = shapes.build(lvs, names)
+        # plain run (proxies absent; stand-ins in concrete mode pick the first optimum, as the pinned fork-mode run does)
+        standins.PINNED[:] = []
+        try:
+            alg, _ = make_config(cfg, [])
+            c = alg.compute_consensus_rankings(ds, sc0, True)
+            plain = ([shapes.ranking_levels(r, names) for r in c.consensus_rankings], float(c.kemeny_score))
+        except Exception as e:  # noqa
+            plain = ("exc", type(e).__name__)
+        B, T = fork.scheme_vars()
+        sc = fork.make_scheme(B, T)
+        pre = fork.valid_scheme(B, T) + [b == fork.real_of_float(v) for b, v in zip(B + T, sc0.b_vector + sc0.t_vector)]
+        ex = fork.Explorer(pre)
+        res = []
+
+        def path(ctx):
+            o = observe(ctx, cfg, lvs, names, True, B, T, sc, ds)
+            if o.exc is not None:
+                res.append(("exc", type(o.exc).__name__))
+            else:
+                ctx._ensure_model()
+                res.append((o.rankings, float(harness.zval(ctx.model, fork.term(o.cons.kemeny_score)))))
+        ex.explore(path)
+        ok = any(r == plain or (r[0] == plain[0] and r[0] != "exc" and abs(r[1] - plain[1]) < 1e-9) for r in res)
+        if plain[0] != "exc" and cfg in ("ExactPulp", "ParCons", "ExactCplex(noopt)", "BioConsert"):
+            # several optima / local optima may exist: the plain result must be one of the explored outcomes, scores must agree
+            ok = ok or any(r[0] != "exc" and abs(r[1] - plain[1]) < 1e-9 for r in res)
+        if not ok:
+            raise harness.HarnessError(f"Engine F disagrees with a plain run: {cfg} on {shapes.raw_json(lvs, names)} with {sc0}: plain {plain}, fork-mode {res[:3]}")
+        STATS.validated += 1
 
 
 def order_items(items):
